@@ -45,6 +45,14 @@ def induced_failures(seed):
         out.append({"id": f"clash-{d}", "names": ["x", "x/inner", "y"], "secs": [1_700_000_000, 1_600_000_000, 5],
                     "src": [[1, 1, 0], [], [2, 1, 0]], "dst": [[], [3, 2, 0], []], "pats": [], "del": False, "dry": False,
                     "dir": d, "jobs": 2, "induced": "clash"})
+        # the reverse clash: the destination holds a FILE where the source needs a directory
+        for v, (dl, pats) in enumerate([(False, []), (True, ["x/a"]), (True, [])]):
+            out.append({"id": f"rclash{v}-{d}", "names": ["x/a", "x/a/b", "z"], "secs": [1_700_000_000, 1_600_000_000, 5],
+                        "src": [[], [1, 1, 0], [2, 1, 0]], "dst": [[3, 2, 0], [], []], "pats": pats, "del": dl, "dry": False,
+                        "dir": d, "jobs": 1 + v, "induced": "clash"})
+            out.append({"id": f"rclashdry{v}-{d}", "names": ["x/a", "x/a/b", "z"], "secs": [1_700_000_000, 1_600_000_000, 5],
+                        "src": [[], [1, 1, 0], [2, 1, 0]], "dst": [[3, 2, 0], [], []], "pats": pats, "del": dl, "dry": True,
+                        "dir": d, "jobs": 1, "induced": "clash"})
     for k, d in enumerate(["push", "pull"]):
         out.append({"id": f"sshfail-{d}", "names": ["ok1", "victim", "ok2", "other"], "secs": [1_700_000_000, 1_600_000_000, 5],
                     "src": [[1, 1, 0], [2, 1, 0], [3, 1, 1], []], "dst": [[], [1, 2, 0], [], [3, 2, 0]], "pats": [], "del": False,
